@@ -117,7 +117,7 @@ theorem pending_wf (r : Reader α) (h : Inv r) : ∀ row ∈ pending r, Row.WF r
       obtain ⟨q, rfl, hq⟩ := hps p (by simp)
       simp only [rowsOfPages, List.mem_append] at hrow
       rcases hrow with hrow | hrow
-      · exact pageRows_wf _ _ _ _ (by rw [hq.2.1]; exact Nat.le_refl _) (by rw [hq.2.2.1]; exact Nat.le_refl _) hq.2.2.2 row hrow
+      · exact pageRows_wf _ _ _ _ (by rw [hq.1]; exact Nat.le_refl _) (by rw [hq.2.1]; exact Nat.le_refl _) hq.2.2 row hrow
       · exact ih (fun x hx => hps x (by simp [hx])) row hrow
   intro row hrow
   unfold pending at hrow
